@@ -37,6 +37,10 @@ def flat_of(state):
 
 
 def leaf_value(x):
+  """Stored value: Variables may carry get/set hooks, states hold raw
+  values."""
+  if isinstance(x, nnx.Variable):
+    return x.raw_value
   return x.value if hasattr(x, 'value') else x
 
 
@@ -85,7 +89,7 @@ def roundtrip(case, ctx):
   require(not (set(nc) & set(n0)) and not (set(vc) & set(v0)),
           'clone shares nodes or Variables with the original')
   for v in vc.values():
-    v.value = v.value + 1000.0
+    v.raw_value = v.raw_value + 1000.0
   require(G.canon(root) == c0, 'mutating the clone changed the original')
   # iter_graph: every graph node exactly once
   with sut('iter_graph'):
@@ -379,7 +383,7 @@ def pop_clause(case, ctx):
     ctx.note(labels=['in-container-error'])
     return
   # identity-insensitive snapshot of everything not selected
-  others_before = {i: np.asarray(v.value).copy() for i, v in v0.items()
+  others_before = {i: np.asarray(v.raw_value).copy() for i, v in v0.items()
                    if i not in selected}
   with sut('pop'):
     res = nnx.pop(root, *filters)
@@ -396,7 +400,7 @@ def pop_clause(case, ctx):
   require(set(n1) == set(n0), 'pop changed the set of graph nodes')
   require(set(v1) == set(v0) - set(selected), 'pop removed other Variables')
   for i, val in others_before.items():
-    require(np.array_equal(np.asarray(v1[i].value), val),
+    require(np.array_equal(np.asarray(v1[i].raw_value), val),
             'pop changed the value of an unselected Variable')
   # aliased?
   aliased = False
